@@ -288,18 +288,88 @@ fn breadth(ctx: &Ctx, devs: Vec<Act>, thorough: bool) -> Vec<LifeCfg> {
     v
 }
 
+/// One real end-to-end run on a tree too tall for the lifecycle engine (h = 20: 2^20 leaves, ~30 s on one
+/// core): keygen with an aux buffer, sign at an inner leaf with that buffer, all verification entry points.
+pub fn tall_tree_case(hid: Hid, w: u32, h: u32, counter: u64, seed: u64) -> Vec<crate::ctx::Viol> {
+    use crate::ctx::Viol;
+    use crate::lib_api::{self, Res};
+    let m = crate::refmodel::Model::new(hid);
+    let params = vec![p(w, h)];
+    let kseed = det_bytes(seed, &format!("tall:{}:{}", hid.name(), h), hid.n());
+    let msg = det_bytes(seed, "tall-msg", 50);
+    let mut aux = vec![0u8; 2 << 20];
+    let mut v = vec![];
+    let kg = lib_api::keygen(hid, &params, &kseed, Some(&mut aux));
+    let pk = match kg {
+        Res::Ok(o) => {
+            aux.truncate(o.aux_len.unwrap_or(aux.len()).min(aux.len()));
+            o.pk
+        }
+        Res::Err => {
+            v.push(Viol::new(format!("C01:tall-tree:keygen-refused:h={}", h), format!("keygen refused [h{} w{}] on {}", h, w, hid.name())));
+            return v;
+        }
+        Res::Panic(s) => {
+            v.push(Viol::new(format!("C01:tall-tree:panic:keygen:{}", lib_api::site_of(&s)), format!("keygen of [h{} w{}] on {} panicked: {}", h, w, hid.name(), s)));
+            return v;
+        }
+    };
+    let blob = m.make_blob(counter, &params, &kseed);
+    let out = lib_api::sign(hid, &blob, &msg, Cb::Accept, Some(&mut aux), Entry::Bytes);
+    match &out.res {
+        Res::Ok(sig) => {
+            for e in lib_api::ALL_VENTRIES {
+                match lib_api::verify(hid, &msg, sig, &pk, e) {
+                    Res::Ok(()) => {}
+                    Res::Err => v.push(Viol::new(format!("C01:tall-tree:verify-rejects:h={}", h), format!("the signature released by a [h{} w{}] key on {} at counter {} is rejected by {:?}", h, w, hid.name(), counter, e))),
+                    Res::Panic(s) => v.push(Viol::new(format!("C01:tall-tree:panic:verify:{}", lib_api::site_of(&s)), format!("verification of a [h{}] signature panicked: {}", h, s))),
+                }
+            }
+            if sig.len() != m.hss_sig_len(&params) {
+                v.push(Viol::new(format!("C01:tall-tree:length:h={}", h), format!("signature of a [h{} w{}] key has {} bytes, the RFC formula gives {}", h, w, sig.len(), m.hss_sig_len(&params))));
+            }
+            if out.cb_args.last() != Some(&m.make_blob(counter + 1, &params, &kseed)) {
+                v.push(Viol::new(format!("C01:tall-tree:successor:h={}", h), "the successor handed over is not counter+1"));
+            }
+        }
+        Res::Err => v.push(Viol::new(format!("C01:tall-tree:sign-refused:h={}", h), format!("a [h{} w{}] key on {} refused to sign at counter {}", h, w, hid.name(), counter))),
+        Res::Panic(s) => v.push(Viol::new(format!("C01:tall-tree:panic:sign:{}", lib_api::site_of(s)), format!("signing with a [h{} w{}] key panicked: {}", h, w, s))),
+    }
+    v
+}
+pub fn tall_tree_replay(case: &Value) -> Result<Vec<crate::ctx::Viol>, String> {
+    let hid: Hid = serde_json::from_value(case["hid"].clone()).map_err(|e| e.to_string())?;
+    Ok(tall_tree_case(hid, case["w"].as_u64().unwrap_or(2) as u32, case["h"].as_u64().unwrap_or(20) as u32, case["counter"].as_u64().unwrap_or(0), case["seed"].as_u64().unwrap_or(0)))
+}
+
 pub fn run_c01(ctx: &Ctx) -> (&'static str, Map<String, Value>) {
+    // real tall trees run on their own threads while the lattice is explored
+    let tall_cfgs: Vec<(Hid, u32, u32, u64)> = if ctx.tier.thorough() { vec![(Hid::S16, 2, 20, 777_777), (Hid::S16, 4, 25, (1 << 25) - 1)] } else { vec![(Hid::S16, 2, 20, 777_777)] };
+    let seed0 = ctx.seed;
+    let tall_threads: Vec<_> = tall_cfgs
+        .iter()
+        .map(|(hid, w, h, c)| {
+            let (hid, w, h, c) = (*hid, *w, *h, *c);
+            std::thread::Builder::new().stack_size(256 << 20).spawn(move || tall_tree_case(hid, w, h, c, seed0)).expect("spawn")
+        })
+        .collect();
     let mut devs = dev_msgs();
     devs.extend(dev_entry());
     devs.extend(dev_aux());
     let cfgs = breadth(ctx, devs, ctx.tier.thorough());
     let (agg, labels) = run_lattice(ctx, cfgs);
     ctx.assume("seeds and message bytes are parameters of the run (VERIF_SEED); lengths, block edges, counters and parameter shapes are enumerated");
-    ctx.assume("tree heights 20 and 25 are never instantiated (infeasible); h=10 windows in the quick tier, one h=15 tree (first/last signatures) in the thorough tier only");
+    ctx.assume("tree heights above 10 are outside the lifecycle engine; one real 2^20-leaf tree (thorough: also 2^25) is generated and used end to end per run, h=10 windows in the quick tier, one h=15 tree (first/last signatures) in the thorough tier");
     let mut m = coverage(ctx, &agg, &labels, RULE, true);
     let (mc, md) = crate::props_msglen::msglen_sweep(ctx);
     m.insert("message_length_sweep".into(), json!({"cases": mc, "rule": md}));
     crate::props_build::fv_cross_or_exit(ctx, &mut m);
+    for (t, (hid, w, h, c)) in tall_threads.into_iter().zip(tall_cfgs.iter()) {
+        for x in t.join().unwrap_or_default() {
+            ctx.report(&x, || json!({"engine":"talltree","hid":hid,"w":w,"h":h,"counter":c,"seed":ctx.seed}));
+        }
+    }
+    m.insert("tall_trees_end_to_end".into(), json!(tall_cfgs.iter().map(|(hid, w, h, c)| format!("{} [h{} w{}]: keygen with aux, sign at counter {} with aux, three verification entry points", hid.name(), h, w, c)).collect::<Vec<_>>()));
     ("model_checking", m)
 }
 
@@ -397,7 +467,9 @@ pub fn run_c03(ctx: &Ctx) -> (&'static str, Map<String, Value>) {
     }
     let (agg, labels) = run_lattice(ctx, cfgs);
     ctx.assume("histories continue from the most recently persisted key (what the callback accepted), as the statement requires");
-    ("model_checking", coverage(ctx, &agg, &labels, RULE, true))
+    let mut m = coverage(ctx, &agg, &labels, RULE, true);
+    crate::props_build::fv_cross_or_exit(ctx, &mut m);
+    ("model_checking", m)
 }
 
 pub fn run_c04(ctx: &Ctx) -> (&'static str, Map<String, Value>) {
@@ -429,6 +501,11 @@ pub fn run_c04(ctx: &Ctx) -> (&'static str, Map<String, Value>) {
         }
     }
     cfgs.extend(length_boundary_cfgs(ctx, vec![sign_act(0, Entry::Key, Cb::Accept, AuxMode::None), sign_act(0, Entry::Bytes, Cb::Reject, AuxMode::None)]));
+    // the shortest signatures (16/24-byte hashes, W8/W4, one or two 4-leaf levels: 388..1136 bytes): whatever
+    // happens after the callback accepted must not turn the call into a failure
+    for (h, ps) in [(Hid::S16, vec![hw(2, 8)]), (Hid::K16, vec![hw(2, 4)]), (Hid::S24, vec![hw(2, 8)]), (Hid::S16, vec![hw(2, 8), hw(2, 8)]), (Hid::K24, vec![hw(5, 8)])] {
+        cfgs.push(cfg(ctx, h, ps, 0, None, 1, vec![sign_act(0, Entry::Key, Cb::Accept, AuxMode::None), sign_act(0, Entry::Bytes, Cb::Reject, AuxMode::None)]));
+    }
     let (agg, labels) = run_lattice(ctx, cfgs);
     ctx.assume("the callback snapshots are taken inside the call; a signature value cannot exist for the caller before the call returns");
     let mut cov = coverage(ctx, &agg, &labels, RULE, true);
